@@ -72,9 +72,6 @@ pub fn unsound(spec: &BTreeMap<String, Vec<u8>>, r: &Recovered) -> Option<(Strin
 
 /// what the model predicts for (layers none | encrypt): status, unfinished, files
 pub fn model_predict(model: &mut Model, bytes: &[u8], cfg: &Cfg, auth: bool) -> Option<Result<Recovered, String>> {
-    if cfg.layers & L_COMP != 0 {
-        return None;
-    }
     let h = match parse_header(bytes) {
         Ok(h) => h,
         Err(e) => return Some(Err(e)),
@@ -91,7 +88,14 @@ pub fn model_predict(model: &mut Model, bytes: &[u8], cfg: &Cfg, auth: bool) -> 
     } else {
         body.to_vec()
     };
-    let m = model.call(json!({"cmd":"repair.run","stream":hx(&delivered),"endErr":false}));
+    let (delivered, end_err) = if cfg.layers & L_COMP != 0 {
+        // brotli is a parameter of the model: its answers on exactly these bytes come from the brotli
+        // crate called directly (stream table), the layer logic is the model's
+        let table = ref_stream_table(&delivered);
+        let m = model.call(json!({"cmd":"comp.failsafe","stream":hx(&delivered),"streams":table}));
+        (unhx(&m["delivered"]), m["err"] == true)
+    } else { (delivered, false) };
+    let m = model.call(json!({"cmd":"repair.run","stream":hx(&delivered),"endErr":end_err}));
     let mut files = BTreeMap::new();
     for f in m["files"].as_array()? {
         files.insert(String::from_utf8(unhx(&f["name"])).ok()?, unhx(&f["data"]));
@@ -104,8 +108,20 @@ pub fn model_predict(model: &mut Model, bytes: &[u8], cfg: &Cfg, auth: bool) -> 
     Some(Ok(Recovered { status: m["status"].as_str()?.to_string(), unfinished, files }))
 }
 
-pub fn same_recovery(a: &Recovered, b: &Recovered) -> Option<String> {
-    if a.status != b.status {
+/// with compression the fail-safe layer ends with an error whose io kind the model does not track
+/// (UnexpectedEof vs InvalidData): the three "input ended while looking for the next block" classes
+/// are one class there
+fn canon_status(s: &str, loose: bool) -> String {
+    if !loose { return s.to_string(); }
+    let (pre, core) = match s.strip_prefix("UnfinishedFiles:") { Some(c) => ("UnfinishedFiles:", c), None => ("", s) };
+    let core = if core == "UnexpectedEOFOnNextBlock" || core.starts_with("ErrorOnNextBlock:io") || core.starts_with("ErrorOnNextBlock:eof") { "InputEnded" } else { core };
+    format!("{pre}{core}")
+}
+
+pub fn same_recovery(a: &Recovered, b: &Recovered) -> Option<String> { same_recovery_l(a, b, false) }
+
+pub fn same_recovery_l(a: &Recovered, b: &Recovered, loose: bool) -> Option<String> {
+    if canon_status(&a.status, loose) != canon_status(&b.status, loose) {
         return Some(format!("status impl={} model={}", a.status, b.status));
     }
     if a.unfinished != b.unfinished {
